@@ -437,6 +437,11 @@ class TreeHeapMixin:
     if isinstance(v, VTKey) and v.const_cls:
       mod, cls = self.world.class_by_name(v.const_cls)
       return VClass(v.const_cls, node=cls, module=mod)
+    if isinstance(v, VObj):
+      mod, cls = self.world.class_by_name(v.cls)
+      return VClass(v.cls, node=cls, module=mod)
+    if isinstance(v, VOpaque):
+      return VClass('<type of an opaque value>')
     raise Unsupported(f'type({type(v).__name__})')
 
   def ev_List(self, node, env):
